@@ -434,8 +434,18 @@ def main(run_fn, prop):
     ap.add_argument("--seed", type=int, default=int(os.environ.get("VERIF_SEED", "1") or 1))
     ap.add_argument("--replay", default=None)
     a = ap.parse_args(sys.argv[2:] if len(sys.argv) > 1 and re.match(r"C\d+", sys.argv[1]) else None)
+    replay_data = None
+    if a.replay:
+        # a replay artefact records tier and seed; every random choice derives from the seed, so re-running
+        # that tier with that seed re-executes the failing case (and everything else of that run)
+        with open(a.replay) as f:
+            replay_data = json.load(f)
+        a.tier = replay_data.get("tier", a.tier)
+        a.seed = int(replay_data.get("seed", a.seed))
+        log("replaying %s: tier=%s seed=%d case=%s" % (a.replay, a.tier, a.seed,
+                                                     json.dumps(replay_data.get("sig"), default=str)[:400]))
     ctx = Ctx(prop, a.tier, a.seed)
-    ctx.replay = a.replay
+    ctx.replay = replay_data
     try:
         run_fn(ctx)
     except Inconclusive as e:
